@@ -18,7 +18,9 @@
     - [callback_result NM data f]: [ParseStreamCallback] run with the callback
       that collects the records and stops at (and returns) the first error:
       the records collected, and the returned error.
-    - [closing r]: [MDone] if [r = None], else [MErr] of that error. *)
+    - [closing r]: [MDone] if [r = None], else [MErr] of that error.
+    - [file_sends NM None = [MErr ChIO; MDone]] (repair F23: Done follows the
+      error of a path that cannot be opened). *)
 From Coq Require Import List Arith.
 From HP Require Import Base.Bytes Base.Num Model.Scanner Model.Parser Model.Channel.
 From HP Require Import Proofs.ChannelLTS Proofs.ChannelStream.
@@ -88,15 +90,39 @@ Theorem stream_no_deadlock : forall (NM : Num) (p : policy) (data : bytes) (f : 
 Proof. exact ChannelStream.stream_no_deadlock. Qed.
 Print Assumptions stream_no_deadlock.
 
-(** ... and for [ParseFile] on an unreadable path only under [DrainUntilDone]:
-    the consumer sees the I/O error once, the producer exits, the consumer
-    waits for a Done that is never sent. *)
-Theorem drain_unreadable_file : forall (NM : Num) (pt ct : nat) (s : state NM),
+(** ... and, after repair F23 ([ParseFile] sends Done after the error of a
+    path that cannot be opened), never for [ParseFile] either: for every
+    content, readable or not, and under either policy. *)
+Theorem file_no_deadlock : forall (NM : Num) (p : policy) (content : option (bytes * read_fault)) (pt ct : nat) (s : state NM),
+  reachable NM p (init NM (file_sends NM content) pt ct) s -> ~ deadlocked NM s.
+Proof. exact ChannelStream.file_no_deadlock. Qed.
+Print Assumptions file_no_deadlock.
+
+(** Every [ParseFile] contains the message on which the consumer returns,
+    under both policies (before F23: not the unreadable path under
+    [DrainUntilDone]). *)
+Theorem file_sends_has_returning : forall (NM : Num) (p : policy) (content : option (bytes * read_fault)),
+  has_returning NM p (file_sends NM content).
+Proof. exact ChannelStream.file_sends_has_returning. Qed.
+Print Assumptions file_sends_has_returning.
+
+(** [ParseFile] on an unreadable path under [DrainUntilDone] (before F23 a
+    deadlock: [drain_unreadable_file]): in every complete run the consumer has
+    returned having seen the I/O error once and then Done, the producer has
+    exited, and the state is not a deadlock. *)
+Theorem drain_unreadable_file_terminates : forall (NM : Num) (pt ct : nat) (s : state NM),
   reachable NM DrainUntilDone (init NM (file_sends NM None) pt ct) s ->
   maximal NM DrainUntilDone s ->
-  obs NM s = [MErr ChIO] /\ pending NM s = [] /\ cons NM s = Receiving /\ deadlocked NM s.
-Proof. exact ChannelStream.drain_unreadable_file. Qed.
-Print Assumptions drain_unreadable_file.
+  cons NM s = Returned /\ obs NM s = [MErr ChIO; MDone] /\ pending NM s = [] /\ ~ deadlocked NM s.
+Proof. exact ChannelStream.drain_unreadable_file_terminates. Qed.
+Print Assumptions drain_unreadable_file_terminates.
+
+(** No deadlock is reachable on the unreadable path (the negation of the old
+    [drain_unreadable_file_deadlock_reachable]). *)
+Theorem unreadable_file_no_deadlock_reachable : forall (NM : Num) (p : policy) (pt ct : nat),
+  ~ exists s, reachable NM p (init NM (file_sends NM None) pt ct) s /\ deadlocked NM s.
+Proof. exact ChannelStream.unreadable_file_no_deadlock_reachable. Qed.
+Print Assumptions unreadable_file_no_deadlock_reachable.
 
 (** "terminates": every step strictly decreases the measure ... *)
 Theorem termination : forall (NM : Num) (p : policy) (s s' : state NM),
@@ -205,6 +231,28 @@ Theorem documented_loop_file : forall (NM : Num) (content : option (bytes * read
 Proof. exact ChannelStream.documented_loop_file. Qed.
 Print Assumptions documented_loop_file.
 
+(** What is left in the producer after the documented loop on [ParseFile]:
+    nothing after a clean run; after an error -- now including the error of a
+    path that cannot be opened -- the [MDone] that the returned consumer will
+    never receive (the goroutine blocks on [p.Done <- true], as for every
+    [ParseStream] error).  [file_error]: [Some ChIO] for an unreadable path,
+    else the callback parser's error. *)
+Theorem documented_loop_file_pending : forall (NM : Num) (content : option (bytes * read_fault)) (pt ct : nat) (s : state NM),
+  reachable NM StopAtFirstError (init NM (file_sends NM content) pt ct) s ->
+  maximal NM StopAtFirstError s ->
+  pending NM s = match file_error NM content with None => [] | Some _ => [MDone] end.
+Proof. exact ChannelStream.documented_loop_file_pending. Qed.
+Print Assumptions documented_loop_file_pending.
+
+(** The unreadable path under the documented loop: the consumer returns at the
+    I/O error; the producer stays blocked on Done. *)
+Theorem stop_unreadable_file : forall (NM : Num) (pt ct : nat) (s : state NM),
+  reachable NM StopAtFirstError (init NM (file_sends NM None) pt ct) s ->
+  maximal NM StopAtFirstError s ->
+  cons NM s = Returned /\ obs NM s = [MErr ChIO] /\ pending NM s = [MDone].
+Proof. exact ChannelStream.stop_unreadable_file. Qed.
+Print Assumptions stop_unreadable_file.
+
 (** Second sentence of C18, list level: the draining consumer is specified to
     see all of [stream_sends], which contains at most one [MErr] (exactly one
     iff the callback parser returns an error) and ends with its only [MDone]. *)
@@ -231,6 +279,25 @@ Theorem drain_sees_each_error_once : forall (NM : Num) (data : bytes) (f : read_
   (count_errs NM (obs NM s) = 1 <-> snd (callback_result NM data f) <> None).
 Proof. exact ChannelStream.drain_sees_each_error_once. Qed.
 Print Assumptions drain_sees_each_error_once.
+
+(** The same for [ParseFile], readable or not (second sentence of C18 for
+    [ParseFile]; true for the unreadable path only since F23): the draining
+    consumer returns, the producer exits, the consumer has seen the records,
+    at most one error (exactly one iff the path is unreadable or the callback
+    parser returns an error) and Done.  [file_nodes]: no record for an
+    unreadable path, else the callback parser's records. *)
+Theorem drain_file : forall (NM : Num) (content : option (bytes * read_fault)) (pt ct : nat) (s : state NM),
+  reachable NM DrainUntilDone (init NM (file_sends NM content) pt ct) s ->
+  maximal NM DrainUntilDone s ->
+  cons NM s = Returned /\
+  pending NM s = [] /\
+  obs NM s = file_sends NM content /\
+  obs NM s = map MNode (file_nodes NM content) ++ cherr_msgs NM (file_error NM content) ++ [MDone] /\
+  count_errs NM (obs NM s) <= 1 /\
+  (count_errs NM (obs NM s) = 1 <-> file_error NM content <> None) /\
+  ~ deadlocked NM s.
+Proof. exact ChannelStream.drain_file. Qed.
+Print Assumptions drain_file.
 
 (** "every interleaving": two complete runs under the same policy, with any
     budgets and any schedules, end with the same observation, the same unsent
